@@ -986,6 +986,9 @@ func main() {
 	// --- composite literals that build the wallet's requests (agent "privacy", C08) ---
 	emitWalletWireFacts(w, repo, walletP, cashuP)
 
+	// --- HTTP surface: per-handler error mapping, decode classes, cache source text, more struct tags (agent "wire", C20) ---
+	emitWireFacts(w, repo, mintP, cashuP, cryptoP, nut04P, nut05P, nut07P)
+
 	w("\nend Gonuts.Gen\n")
 
 	if outPath == "" {
@@ -1739,4 +1742,301 @@ func emitWalletWireFacts(w func(string, ...any), repo string, walletP, cashuP *p
 	emitSrc("src_NewBlindedMessage", srcLines(findFunc(cashuP, "", "NewBlindedMessage")))
 	// helper of the F5 fix (absent before it): DLEQ-less copies of request inputs
 	emitSrc("src_inputsWithoutDLEQ", srcLines(findFunc(walletP, "", "inputsWithoutDLEQ")))
+}
+
+// ============================================================================================
+// C20 (agent "wire"): facts about mint/server.go that Model/Wire.lean mirrors.  Data only:
+//   * for every HTTP handler: the internal error codes it tests in `cashuErr.Code == cashu.X`
+//     (those are the ones it replaces by a constant), the first argument of every writeErr call in
+//     source order, whether it checks the {method} variable, the request type it decodes;
+//   * decodeJsonReqBody: the case conditions of its error switch and its string literals;
+//   * go/printer text of Cache.Set / Get / DeleteExpired, writeErr, setupHeaders, the loop of Start,
+//     PublicKeys.MarshalJSON;
+//   * the NUT-19 advertisement in SetMintInfo;
+//   * which cashu.Error variables are used at all (selector uses outside their declaration);
+//   * JSON tags of the remaining request / response structs.
+// Gonuts/Tie/Wire.lean proves each equal to what the model uses.
+// ============================================================================================
+
+func emitWireFacts(w func(string, ...any), repo string, mintP, cashuP, cryptoP, nut04P, nut05P, nut07P *pkg) {
+	w("\n/-! ## HTTP surface (C20): handlers, decoding, cache, advertisement -/\n")
+	oneLine := func(n ast.Node) string { return strings.Join(strings.Fields(nodeText(n)), " ") }
+	emitLines := func(lean string, lines []string) {
+		w("def %s : List String := [\n", lean)
+		for i, l := range lines {
+			sep := ","
+			if i == len(lines)-1 {
+				sep = ""
+			}
+			w("  %s%s\n", leanStr(l), sep)
+		}
+		w("]\n")
+	}
+	// handlers = methods of MintServer with the (rw, req) signature
+	var handlers []*ast.FuncDecl
+	for _, f := range mintP.files {
+		for _, d := range f.Decls {
+			fd, ok := d.(*ast.FuncDecl)
+			if !ok || fd.Recv == nil || fd.Body == nil || len(fd.Recv.List) == 0 {
+				continue
+			}
+			if strings.TrimPrefix(exprString(fd.Recv.List[0].Type), "*") != "MintServer" {
+				continue
+			}
+			if fd.Type.Params == nil || len(fd.Type.Params.List) != 2 || exprString(fd.Type.Params.List[0].Type) != "http.ResponseWriter" {
+				continue
+			}
+			handlers = append(handlers, fd)
+		}
+	}
+	sort.Slice(handlers, func(i, j int) bool { return handlers[i].Name.Name < handlers[j].Name.Name })
+	type row struct {
+		name string
+		vals []string
+	}
+	emitRows := func(lean string, rows []row) {
+		w("def %s : List (String × List String) := [\n", lean)
+		for i, r := range rows {
+			sep := ","
+			if i == len(rows)-1 {
+				sep = ""
+			}
+			w("  (%s, %s)%s\n", leanStr(r.name), leanStrList(r.vals), sep)
+		}
+		w("]\n")
+	}
+	var codes, werrs, decodes, opcalls []row
+	var methodChecks []string
+	for _, fd := range handlers {
+		seen := map[string]bool{}
+		var cs, ws, ds, ops []string
+		varTypes := map[string]string{}
+		hasMethod := false
+		ast.Inspect(fd.Body, func(n ast.Node) bool {
+			switch x := n.(type) {
+			case *ast.BinaryExpr:
+				if x.Op == token.EQL && exprString(x.X) == "cashuErr.Code" {
+					c := strings.TrimPrefix(exprString(x.Y), "cashu.")
+					if !seen[c] {
+						seen[c] = true
+						cs = append(cs, c)
+					}
+				}
+				if x.Op == token.NEQ && exprString(x.X) == "method" && exprString(x.Y) == "cashu.BOLT11_METHOD" {
+					hasMethod = true
+				}
+			case *ast.DeclStmt:
+				if gd, ok := x.Decl.(*ast.GenDecl); ok && gd.Tok == token.VAR {
+					for _, sp := range gd.Specs {
+						if vs, ok := sp.(*ast.ValueSpec); ok && vs.Type != nil {
+							for _, nm := range vs.Names {
+								varTypes[nm.Name] = exprString(vs.Type)
+							}
+						}
+					}
+				}
+			case *ast.CallExpr:
+				callee := exprString(x.Fun)
+				switch {
+				case callee == "ms.writeErr" && len(x.Args) >= 3:
+					ws = append(ws, exprString(x.Args[2]))
+				case callee == "decodeJsonReqBody" && len(x.Args) == 2:
+					v := strings.TrimPrefix(exprString(x.Args[1]), "&")
+					ds = append(ds, varTypes[v])
+				case strings.HasPrefix(callee, "ms.mint.") && callee != "ms.mint.logDebugf" && !strings.HasPrefix(callee, "ms.mint.logger"):
+					ops = append(ops, strings.TrimPrefix(callee, "ms.mint."))
+				}
+			}
+			return true
+		})
+		sort.Strings(cs)
+		codes = append(codes, row{fd.Name.Name, cs})
+		werrs = append(werrs, row{fd.Name.Name, ws})
+		decodes = append(decodes, row{fd.Name.Name, ds})
+		opcalls = append(opcalls, row{fd.Name.Name, ops})
+		if hasMethod {
+			methodChecks = append(methodChecks, fd.Name.Name)
+		}
+	}
+	emitRows("handlerGenericCodes", codes)
+	emitRows("handlerWriteErrArgs", werrs)
+	emitRows("handlerDecodes", decodes)
+	emitRows("handlerMintCalls", opcalls)
+	w("def handlerMethodChecks : List String := %s\n", leanStrList(methodChecks))
+
+	// decodeJsonReqBody
+	dfd := findFunc(mintP, "", "decodeJsonReqBody")
+	var conds, lits []string
+	if dfd != nil {
+		ast.Inspect(dfd.Body, func(n ast.Node) bool {
+			switch x := n.(type) {
+			case *ast.CaseClause:
+				if len(x.List) == 0 {
+					conds = append(conds, "default")
+				}
+				for _, e := range x.List {
+					conds = append(conds, oneLine(e))
+				}
+			case *ast.BasicLit:
+				if x.Kind == token.STRING {
+					if sv, err := strconv.Unquote(x.Value); err == nil {
+						lits = append(lits, sv)
+					}
+				}
+			}
+			return true
+		})
+	}
+	w("def decodeSwitchCases : List String := %s\n", leanStrList(conds))
+	w("def decodeStringLiterals : List String := %s\n", leanStrList(lits))
+	emitLines("src_decodeJsonReqBody", srcLines(dfd))
+
+	// source text of the small functions the cache / transport model mirrors
+	emitLines("src_CacheSet", srcLines(findFunc(mintP, "Cache", "Set")))
+	emitLines("src_CacheGet", srcLines(findFunc(mintP, "Cache", "Get")))
+	emitLines("src_CacheDeleteExpired", srcLines(findFunc(mintP, "Cache", "DeleteExpired")))
+	emitLines("src_NewCache", srcLines(findFunc(mintP, "", "NewCache")))
+	emitLines("src_writeErr", srcLines(findFunc(mintP, "MintServer", "writeErr")))
+	emitLines("src_setupHeaders", srcLines(findFunc(mintP, "", "setupHeaders")))
+	emitLines("src_Start", srcLines(findFunc(mintP, "MintServer", "Start")))
+	emitLines("src_SetupMintServer", srcLines(findFunc(mintP, "", "SetupMintServer")))
+	emitLines("src_PublicKeysMarshalJSON", srcLines(findFunc(cryptoP, "PublicKeys", "MarshalJSON")))
+	emitLines("src_CheckDuplicateProofs", srcLines(findFunc(cashuP, "", "CheckDuplicateProofs")))
+
+	// the statements of the two cached handlers that touch the cache, in source order
+	cacheStmts := func(fd *ast.FuncDecl) []string {
+		var out []string
+		if fd == nil {
+			return []string{"<missing>"}
+		}
+		ast.Inspect(fd.Body, func(n ast.Node) bool {
+			switch x := n.(type) {
+			case *ast.IfStmt:
+				c := oneLine(x.Cond)
+				if c == "found" || strings.Contains(c, "REQUEST_BODY_SIZE_LIMIT") {
+					out = append(out, "if "+c)
+				}
+			case *ast.CallExpr:
+				callee := exprString(x.Fun)
+				if strings.HasPrefix(callee, "ms.cache.") || callee == "ms.mint.Swap" || callee == "ms.mint.MintTokens" || callee == "decodeJsonReqBody" {
+					out = append(out, "call "+callee)
+				}
+			}
+			return true
+		})
+		return out
+	}
+	emitLines("stmts_cache_swapRequest", cacheStmts(findFunc(mintP, "MintServer", "swapRequest")))
+	emitLines("stmts_cache_mintTokensRequest", cacheStmts(findFunc(mintP, "MintServer", "mintTokensRequest")))
+	emitLines("stmts_cache_getKeysetById", cacheStmts(findFunc(mintP, "MintServer", "getKeysetById")))
+	emitLines("stmts_cache_getActiveKeysets", cacheStmts(findFunc(mintP, "MintServer", "getActiveKeysets")))
+	// key / TTL arguments of the keyset uses of the cache
+	argRows := func(fd *ast.FuncDecl, callee string) [][]string { return callArgs(fd, callee) }
+	emitArgs := func(lean string, rows [][]string) {
+		w("def %s : List (List String) := [", lean)
+		for i, r := range rows {
+			if i > 0 {
+				w(", ")
+			}
+			w("%s", leanStrList(r))
+		}
+		w("]\n")
+	}
+	emitArgs("args_cacheGet_keysById", argRows(findFunc(mintP, "MintServer", "getKeysetById"), "ms.cache.Get"))
+	emitArgs("args_cacheSet_keysById", argRows(findFunc(mintP, "MintServer", "getKeysetById"), "ms.cache.Set"))
+	emitArgs("args_cacheGet_activeKeys", argRows(findFunc(mintP, "MintServer", "getActiveKeysets"), "ms.cache.Get"))
+	emitArgs("args_cacheSet_activeKeys", argRows(findFunc(mintP, "MintServer", "getActiveKeysets"), "ms.cache.Set"))
+
+	// NUT-19 advertisement: the Nut19 field of the nuts literal in SetMintInfo
+	adv := "<missing>"
+	if fd := findFunc(mintP, "Mint", "SetMintInfo"); fd != nil {
+		ast.Inspect(fd.Body, func(n ast.Node) bool {
+			if kv, ok := n.(*ast.KeyValueExpr); ok && exprString(kv.Key) == "Nut19" {
+				adv = oneLine(kv.Value)
+				return false
+			}
+			return true
+		})
+	}
+	w("def nut19Advertisement : String := %s\n", leanStr(adv))
+
+	// uses of the error variables of cashu/cashu.go: selector uses `cashu.X` in the mint package + bare uses inside cashu
+	var names []string
+	for _, r := range collectErrors(cashuP, collectConsts(cashuP), nil) {
+		names = append(names, r.name)
+	}
+	uses := map[string]int{}
+	for _, f := range mintP.files {
+		ast.Inspect(f, func(n ast.Node) bool {
+			if se, ok := n.(*ast.SelectorExpr); ok && exprString(se.X) == "cashu" {
+				uses[se.Sel.Name]++
+			}
+			return true
+		})
+	}
+	for _, f := range cashuP.files {
+		for _, d := range f.Decls {
+			fd, ok := d.(*ast.FuncDecl)
+			if !ok || fd.Body == nil {
+				continue
+			}
+			ast.Inspect(fd.Body, func(n ast.Node) bool {
+				if id, ok := n.(*ast.Ident); ok {
+					uses[id.Name]++
+				}
+				return true
+			})
+		}
+	}
+	w("def errVarUsed : List (String × Bool) := [")
+	for i, n := range names {
+		if i > 0 {
+			w(", ")
+		}
+		w("(%s, %v)", leanStr(n), uses[n] > 0)
+	}
+	w("]\n")
+
+	// JSON tags of the remaining request / response structs
+	emitFields := func(lean string, rows [][3]string) {
+		w("def %s : List (String × String × String) := [", lean)
+		for i, r := range rows {
+			if i > 0 {
+				w(", ")
+			}
+			w("(%s, %s, %s)", leanStr(r[0]), leanStr(r[1]), leanStr(r[2]))
+		}
+		w("]\n")
+	}
+	nut01P := parseDir(filepath.Join(repo, "cashu/nuts/nut01"))
+	nut02P := parseDir(filepath.Join(repo, "cashu/nuts/nut02"))
+	nut03P := parseDir(filepath.Join(repo, "cashu/nuts/nut03"))
+	nut06P := parseDir(filepath.Join(repo, "cashu/nuts/nut06"))
+	nut09P := parseDir(filepath.Join(repo, "cashu/nuts/nut09"))
+	emitFields("fields_MintQuoteRequest", structFields(nut04P, "PostMintQuoteBolt11Request"))
+	emitFields("fields_MintRequest", structFields(nut04P, "PostMintBolt11Request"))
+	emitFields("fields_MintResponse", structFields(nut04P, "PostMintBolt11Response"))
+	emitFields("fields_MintQuoteTemp", structFields(nut04P, "tempQuote"))
+	emitFields("fields_SwapRequest", structFields(nut03P, "PostSwapRequest"))
+	emitFields("fields_SwapResponse", structFields(nut03P, "PostSwapResponse"))
+	emitFields("fields_MeltQuoteRequest", structFields(nut05P, "PostMeltQuoteBolt11Request"))
+	emitFields("fields_MppOption", structFields(nut05P, "MppOption"))
+	emitFields("fields_MeltRequest", structFields(nut05P, "PostMeltBolt11Request"))
+	emitFields("fields_MeltQuoteTemp", structFields(nut05P, "tempQuote"))
+	emitFields("fields_CheckStateRequest", structFields(nut07P, "PostCheckStateRequest"))
+	emitFields("fields_CheckStateResponse", structFields(nut07P, "PostCheckStateResponse"))
+	emitFields("fields_ProofStateTemp", structFields(nut07P, "tempProofState"))
+	emitFields("fields_RestoreRequest", structFields(nut09P, "PostRestoreRequest"))
+	emitFields("fields_RestoreResponse", structFields(nut09P, "PostRestoreResponse"))
+	emitFields("fields_GetKeysResponse", structFields(nut01P, "GetKeysResponse"))
+	emitFields("fields_KeysKeyset", structFields(nut01P, "Keyset"))
+	emitFields("fields_GetKeysetsResponse", structFields(nut02P, "GetKeysetsResponse"))
+	emitFields("fields_KeysetsKeyset", structFields(nut02P, "Keyset"))
+	emitFields("fields_MintInfo", structFields(nut06P, "MintInfo"))
+	emitFields("fields_Nuts", structFields(nut06P, "Nuts"))
+	emitFields("fields_NutSetting", structFields(nut06P, "NutSetting"))
+	emitFields("fields_MethodSetting", structFields(nut06P, "MethodSetting"))
+	emitFields("fields_Supported", structFields(nut06P, "Supported"))
+	emitFields("fields_Nut19Setting", structFields(nut06P, "Nut19Setting"))
+	emitFields("fields_CachedEndpoint", structFields(nut06P, "CachedEndpoint"))
 }
